@@ -2,12 +2,39 @@
    against the implementation: the BER parser is the yasna model of BerYasna.v; over the
    in-memory transport of the harness a TLS handshake cannot succeed. *)
 From RdpV Require Import Base Msg LayoutsGlobal LayoutsConnect Link Tpkt Global BerYasna Connect.
+Open Scope list_scope.
 Open Scope N_scope.
 
 Definition no_tls (_ : stream) : outcome stream := Err ESsl.
+(* a server that takes the client's first TSRequest and answers something that is not one *)
+Definition no_cssp (_ : stream) : nat * outcome stream := (1%nat, Err EAsn1).
 
 Definition connect_impl (p : prof) (c : config) (cs : stream) : outcome (N * server_data) * cst :=
-  run_connect p (ber_connect_response p) no_tls no_tls c cs.
+  run_connect p (ber_connect_response p) false no_tls no_cssp c cs.
+
+(* C02: the harness has a TLS server that takes over when the client sends a ClientHello, and
+   then sends the frames [post] inside TLS.  The handshake completes at protocol level
+   exactly when the client has consumed the server's reply and nothing else: bytes left
+   over from the reply, or bytes of [post] that the client already pulled in clear, end up
+   in front of the ServerHello and break it. *)
+Fixpoint bytes_eqb (a b : bytes) : bool :=
+  match a, b with
+  | [], [] => true
+  | x :: a', y :: b' => (x =? y) && bytes_eqb a' b'
+  | _, _ => false
+  end.
+Fixpoint stream_eqb (a b : stream) : bool :=
+  match a, b with
+  | [], [] => true
+  | x :: a', y :: b' => bytes_eqb x y && stream_eqb a' b'
+  | _, _ => false
+  end.
+Definition tls_exact (post cs : stream) : outcome stream :=
+  if stream_eqb cs post then Ok cs else Err ESsl.
+
+Definition negotiate_impl (p : prof) (trusted tls_server : bool) (c : config) (cs post : stream)
+  : outcome (N * server_data) * cst :=
+  run_connect p (ber_connect_response p) trusted (if tls_server then tls_exact post else no_tls) no_cssp c cs.
 
 Definition gcc_impl (p : prof) (input : bytes) : outcome server_data * N :=
   read_conference_create_response p input.
